@@ -129,23 +129,30 @@ def contract_estimators(case):
     if res[0] == "arith":
         if some_undefined_ok:
             return ("ok", nontrivial)
-        return ("fail", f"{site}/ArithmeticError-although-every-pair-is-defined", f"{ctx}: {res[1]}")
+        zd = any(_zero_diff_partner(names, seqs, mt, n) for n in names)
+        return ("fail", f"{site}/{'zero-diff-partner' if zd else 'plain'}/ArithmeticError-although-every-pair-is-defined",
+                f"{ctx}: {res[1]}")
     if res[0] == "none":
         if entry == "dm_drop" and len(strictly_defined) < 2:
             return ("ok", nontrivial)
-        return ("fail", f"{site}/returns-None", f"{ctx}: None returned; sequences with all pairs defined: {strictly_defined}")
+        zd = any(_zero_diff_partner(names, seqs, mt, n) for n in names)
+        return ("fail", f"{site}/{'zero-diff-partner' if zd else 'plain'}/returns-None",
+                f"{ctx}: None returned; sequences with all pairs defined: {strictly_defined}")
     _, got_names, view = res
+    zdp = {n: _zero_diff_partner(names, seqs, mt, n) for n in names}
     if entry == "dm_drop":
         if len(set(got_names)) != len(got_names) or not set(got_names) <= set(names):
             return ("fail", f"{site}/names", f"{ctx}: names {got_names}")
         missing = [n for n in strictly_defined if n not in got_names]
         if missing and len(strictly_defined) >= 2:
-            return ("fail", f"{site}/drops-a-sequence-whose-pairs-are-all-defined", f"{ctx}: kept {got_names}, missing {missing}")
+            return ("fail", f"{site}/{'zero-diff-partner' if any(zdp.values()) else 'plain'}/drops-a-sequence-whose-pairs-are-all-defined",
+                    f"{ctx}: kept {got_names}, missing {missing}")
     elif sorted(got_names) != sorted(names):
         return ("fail", f"{site}/names", f"{ctx}: names {got_names}, alignment has {names}")
     for a in got_names:
         if not (view[(a, a)] == 0.0):
             return ("fail", f"{site}/diagonal", f"{ctx}: d({a},{a}) = {view[(a, a)]}")
+    found = None
     for a in got_names:
         for b in got_names:
             if a == b:
@@ -163,16 +170,23 @@ def contract_estimators(case):
                 continue
             if math.isnan(v):
                 sub = "nan-in-result-of-drop_invalid" if (entry == "dm_drop" and nan_ok) else "nan-for-defined-pair"
-            elif not vals or (sp["exact"] is None and sp["alt"] is None and sp["total"] > 0 and sp["diffs"] > 0):
+            elif sp["total"] == 0:
+                sub = "nonzero-for-pair-without-usable-column"
+            elif not vals:
                 sub = "finite-for-undefined-pair"
             else:
                 sub = "wrong-value"
-            if calc in ("paralinear", "logdet", "logdet_notk") and sp["exact"] is None and sp["total"] > 0:
-                sub += "(singular)"
-            pat = "zero-diff-partner" if (_zero_diff_partner(names, seqs, mt, a) or _zero_diff_partner(names, seqs, mt, b)) else "plain"
-            return ("fail", f"{site}/{pat}/{sub}",
+            if sp["code"] and sp["total"] > 0:
+                sub += f"[{sp['code']}]"
+            pat = "zero-diff-partner" if (zdp[a] or zdp[b]) else "plain"
+            fail = ("fail", f"{site}/{pat}/{sub}",
                     f"{ctx}: d({a},{b}) = {v}; spec on the shared canonical columns: total={sp['total']} diffs={sp['diffs']} "
                     f"published={sp['exact']} padded={sp['alt']} {sp['why']}; admissible {vals}{' or undefined' if nan_ok else ''}")
+            if pat == "plain":
+                return fail                    # a violation that the duplicate short-cut cannot explain comes first
+            found = found or fail
+    if found:
+        return found
     return ("ok", nontrivial)
 
 
@@ -183,20 +197,24 @@ def _names_for(k, variant):
 
 
 def gen_pairs(tier, seed):
-    """every pair of strings of equal length 1..L over ACGT-N"""
+    """every pair of strings of equal length 1..3 over ACGT-N"""
     thorough = tier == "thorough"
     alpha = "ACGT-N"
+    others = [e for e in ENTRIES if e != "calc"]
+    t = 0
     for L in (1, 2, 3):
-        strings = ["".join(t) for t in itertools.product(alpha, repeat=L)]
-        if L <= 2 or thorough:
-            entries, calcs = ENTRIES, CALCS
-        else:
-            entries, calcs = ["calc"], CALCS
+        strings = ["".join(x) for x in itertools.product(alpha, repeat=L)]
         for s1 in strings:
             for s2 in strings:
-                for calc in calcs:
-                    for entry in entries:
-                        yield [entry, calc, "dna", ["s1", "s2"], [s1, s2], "array"]
+                t += 1
+                if L <= 2:
+                    todo = [(c, e) for c in CALCS for e in ENTRIES]
+                elif thorough:               # every estimator through the calculator and one more entry point in turn
+                    todo = [(c, e) for k, c in enumerate(CALCS) for e in ("calc", others[(t + k) % 3])]
+                else:                        # quick: one estimator in turn (all of them over any 7 consecutive pairs)
+                    todo = [(CALCS[t % 7], "calc")]
+                for calc, entry in todo:
+                    yield [entry, calc, "dna", ["s1", "s2"], [s1, s2], "array"]
 
 
 def _count_multisets(cols, size):
@@ -212,16 +230,18 @@ def gen_counts(tier, seed):
     cols = [a + b for a in "ACGT" for b in "ACGT"]
     noise_cols = [a + b for a in "ACGT" + NONCANON for b in "ACGT" + NONCANON if a in NONCANON or b in NONCANON]
     for size in range(1, S_max + 1):
+        full = size <= 3
         for ms in _count_multisets(cols, size):
             plain = list(ms)
             rnd.shuffle(plain)
             noisy = list(ms) + [rnd.choice(noise_cols) for _ in range(rnd.choice((1, 2, 3)))]
             rnd.shuffle(noisy)
-            for variant, cl in (("plain", plain), ("noisy", noisy)):
+            variants = [("plain", plain), ("noisy", noisy)] if (full or thorough) else [("noisy", noisy)]
+            for variant, cl in variants:
                 s1 = "".join(c[0] for c in cl)
                 s2 = "".join(c[1] for c in cl)
                 for calc in CALCS:
-                    ents = ["calc", "dm"] if (thorough or size <= 3) else ["calc"]
+                    ents = ["calc", "dm"] if (full or (thorough and variant == "noisy")) else ["calc"]
                     for entry in ents:
                         yield [entry, calc, "dna", ["s1", "s2"], [s1, s2], "array"]
 
@@ -230,12 +250,13 @@ def gen_triples(tier, seed):
     """three sequences: every multiset of <= K columns over alphabet^3, columns shuffled"""
     rnd = random.Random(seed)
     thorough = tier == "thorough"
-    jobs = [("ACN", 3, ["pdist", "hamming", "jc69"], ENTRIES)]
+    others = [e for e in ENTRIES if e != "calc"]
     if thorough:
-        jobs = [("ACGN", 3, [c for c in CALCS if c != "logdet_notk"], ENTRIES),
+        jobs = [("ACGN", 3, [c for c in CALCS if c != "logdet_notk"], None),
                 ("AC-", 4, ["pdist", "jc69"], ["calc", "dm_drop"])]
     else:
-        jobs.append(("ACGN", 2, ["tn93", "paralinear", "logdet"], ["calc", "dm"]))
+        jobs = [("ACN", 3, ["pdist", "hamming", "jc69"], None),
+                ("ACGN", 2, ["tn93", "paralinear", "logdet"], ["calc", "dm"])]
     v = 0
     for alpha, K, calcs, entries in jobs:
         cols = ["".join(t) for t in itertools.product(alpha, repeat=3)]
@@ -246,8 +267,9 @@ def gen_triples(tier, seed):
                 seqs = ["".join(c[i] for c in cl) for i in range(3)]
                 v += 1
                 names = _names_for(3, v)
-                for calc in calcs:
-                    for entry in entries:
+                for k, calc in enumerate(calcs):
+                    ents = entries or (ENTRIES if size <= 2 else ["calc", others[(v + k) % 3]])
+                    for entry in ents:
                         yield [entry, calc, "dna", names, seqs, "array"]
 
 
@@ -525,23 +547,25 @@ _EST_RULE = ("a case = (entry point, estimator, moltype, names, strings, alignme
 BOUNDED = {
     "estimators_pairs": {
         "gen": gen_pairs, "contract": contract_estimators, "functions": _EST_FUNCS,
-        "bound": "every pair of equal-length strings of length 1..3 over ACGT-N x 7 estimators (pdist, hamming, jc69, tn93, "
-                 "paralinear, logdet, logdet without TK adjustment); 4 entry points for length <= 2 (thorough: <= 3), the "
-                 "calculator object for length 3",
+        "bound": "every pair of equal-length strings of length 1..3 over ACGT-N; length <= 2: x 7 estimators (pdist, hamming, "
+                 "jc69, tn93, paralinear, logdet, logdet without TK adjustment) x 4 entry points; length 3: quick one estimator "
+                 "per pair in turn through the calculator object, thorough all 7 through the calculator and one further "
+                 "entry point in turn",
         "rule": _EST_RULE, "shards": 16,
     },
     "estimators_counts": {
         "gen": gen_counts, "contract": contract_estimators, "functions": _EST_FUNCS,
         "bound": "two sequences realising every 4x4 count matrix of sum 1..4 (thorough 1..5): columns in a seeded order, "
-                 "once as they are and once with 1-3 columns holding one of -N?RYW interspersed; 7 estimators; calculator "
-                 "object, plus aln.distance_matrix for sum <= 3 (thorough: all)",
+                 "with 1-3 columns holding one of -N?RYW interspersed and (sum <= 3, thorough all) also without; 7 "
+                 "estimators; calculator object, plus aln.distance_matrix for sum <= 3 (thorough: all noisy ones)",
         "rule": _EST_RULE, "shards": 16,
     },
     "estimators_triples": {
         "gen": gen_triples, "contract": contract_estimators, "functions": _EST_FUNCS,
-        "bound": "three sequences: every multiset of <= 3 columns over {A,C,N}^3 x (pdist, hamming, jc69) x 4 entry points, "
-                 "of <= 2 columns over {A,C,G,N}^3 x (tn93, paralinear, logdet); thorough: <= 3 columns over {A,C,G,N}^3 x 6 "
-                 "estimators x 4 entry points and <= 4 columns over {A,C,-}^3; three name sets, columns in a seeded order",
+        "bound": "three sequences: every multiset of <= 3 columns over {A,C,N}^3 x (pdist, hamming, jc69), of <= 2 columns over "
+                 "{A,C,G,N}^3 x (tn93, paralinear, logdet); thorough: <= 3 columns over {A,C,G,N}^3 x 6 estimators and <= 4 "
+                 "columns over {A,C,-}^3 x (pdist, jc69); 4 entry points up to 2 columns, beyond that the calculator object "
+                 "and one further entry point in turn; three name sets, columns in a seeded order",
         "rule": _EST_RULE, "shards": 16,
     },
     "estimators_sample": {
